@@ -306,6 +306,10 @@ pub fn mul<E>(a: &[E], b: &[E]) -> Vec<E>
 where
     E: FieldElement,
 {
+    // the product with the zero polynomial (an empty slice) is the zero polynomial
+    if a.is_empty() || b.is_empty() {
+        return Vec::new();
+    }
     let result_len = a.len() + b.len() - 1;
     let mut result = vec![E::ZERO; result_len];
     for i in 0..a.len() {
@@ -380,6 +384,10 @@ where
 {
     let mut apos = degree_of(a);
     let mut a = a.to_vec();
+    if a.is_empty() {
+        // an empty dividend is the zero polynomial
+        a.push(E::ZERO);
+    }
 
     let bpos = degree_of(b);
     assert!(apos >= bpos, "cannot divide by polynomial of higher degree");
